@@ -264,6 +264,70 @@ example :
   refine ⟨(thread_independent B _ (fun _ => 0) ()).2, ?_⟩
   decide
 
+
+/-! ### the coded window, and `calc_power` end to end -/
+
+/-- the window `get_W_compensated` builds is strictly positive at every mode (TSC and CIC, interlaced or
+not, every mesh): the compensation never divides by zero -/
+theorem codedW_pos (paste : Paste) (interlaced : Bool) (k : Idx n) :
+    0 < codedW n paste interlaced k :=
+  mul_pos (mul_pos (codedW1_pos _ _ _) (codedW1_pos _ _ _)) (codedW1_pos _ _ _)
+
+example : 0 < codedW 5 .tsc true (2, 3, 0) := codedW_pos _ _ _
+
+/-- **calc_power_symmetries.**  The modelled `calc_power` (coded phase, coded window) with a TSC/CIC-like
+deposit: (1) translating all particles — of both fields, for a cross power — by whole cells leaves the
+table unchanged; (2) so does permuting the particles of either field; (3) passing the same particles as
+the second field gives the auto table; (4) `N_mode`, `N_mode_poles`, `k_avg` are the same for any two
+inputs. -/
+theorem calc_power_symmetries {Part β γ ι : Type} [DecidableEq β] [DecidableEq γ]
+    {shift : Idx n → Part → Part} {D D' : List Part → Grid n}
+    (hD : IsDeposit shift D) (hD' : IsDeposit shift D') (paste : Paste) (compensated interlaced : Bool)
+    (B : Binning n β γ ι) (P : List Part) :
+    (∀ s, calcPower D D' paste compensated interlaced B (P.map (shift s)) none =
+        calcPower D D' paste compensated interlaced B P none) ∧
+    (∀ s Q, calcPower D D' paste compensated interlaced B (P.map (shift s)) (some (Q.map (shift s))) =
+        calcPower D D' paste compensated interlaced B P (some Q)) ∧
+    (∀ P' Q Q', P.Perm P' → Q.Perm Q' →
+        calcPower D D' paste compensated interlaced B P none =
+          calcPower D D' paste compensated interlaced B P' none ∧
+        calcPower D D' paste compensated interlaced B P (some Q) =
+          calcPower D D' paste compensated interlaced B P' (some Q')) ∧
+    calcPower D D' paste compensated interlaced B P (some P) =
+      calcPower D D' paste compensated interlaced B P none ∧
+    (∀ (P' : List Part) (Q Q' : Option (List Part)),
+        (calcPower D D' paste compensated interlaced B P Q).N_mode =
+          (calcPower D D' paste compensated interlaced B P' Q').N_mode ∧
+        (calcPower D D' paste compensated interlaced B P Q).N_mode_poles =
+          (calcPower D D' paste compensated interlaced B P' Q').N_mode_poles ∧
+        (calcPower D D' paste compensated interlaced B P Q).k_avg =
+          (calcPower D D' paste compensated interlaced B P' Q').k_avg) := by
+  refine ⟨?_, ?_, ?_, ?_, ?_⟩
+  · intro s
+    simp only [calcPower]
+    rw [power_translation_invariant hD hD']
+  · intro s Q
+    simp only [calcPower]
+    rw [cross_power_translation_invariant hD hD']
+  · intro P' Q Q' hp hq
+    have h1 := fun W => (power_perm_invariant hD hD' interlaced (codedPhase n) W B hp).1
+    have h2 := fun W => (power_perm_invariant hD hD' interlaced (codedPhase n) W B hq).1
+    simp only [calcPower, h1, h2, and_self]
+  · simp only [calcPower]
+    rw [cross_eq_auto]
+  · intro P' Q Q'
+    cases Q <;> cases Q' <;> exact ⟨rfl, rfl, rfl⟩
+
+example :
+    calcPower (n := 3) ngp ngp .tsc true true
+        (⟨Finset.univ, fun k => some k.1, fun _ => some (), fun _ => 2, fun _ => 1, fun _ _ => 1⟩ :
+          Binning 3 (ZMod 3) Unit Unit)
+        ([((0, 1, 2), 1), ((2, 2, 0), 3)].map (ngpShift (2, 0, 1))) none =
+      calcPower (n := 3) ngp ngp .tsc true true
+        ⟨Finset.univ, fun k => some k.1, fun _ => some (), fun _ => 2, fun _ => 1, fun _ _ => 1⟩
+        [((0, 1, 2), 1), ((2, 2, 0), 3)] none :=
+  (calc_power_symmetries ngp_isDeposit ngp_isDeposit .tsc true true _ _).1 _
+
 /-! ### the coded interlacing phase -/
 
 omit [NeZero n] in
